@@ -9,7 +9,9 @@
 //! ```text
 //! G geo bits=<12|16|32> bps=<n> spc=<n> reserved=<n> fats=<n> spf=<n> root_entries=<n> total_sectors=<n>
 //!       clusters=<n> mirror=<0|1> active=<n> root_cluster=<n> free=<n> fsinfo_free=<n|none> fsinfo_next=<n|none>
-//!       label=<hex11|none> status=<n> fat1=<raw value of FAT entry 1>
+//!       label=<hex11|none> status=<n> fat1=<raw value of FAT entry 1> extsig=<n> volid=<n> bpblabel=<hex11>
+//!       (label = the volume-label SLOT of the root directory; extsig/volid/bpblabel = the raw boot-sector fields: with
+//!       extsig != 41 (0x29) a reader must ignore volid, bpblabel and the type string)
 //! G dir <path-hex|-> <n>                       directory (path of display names from the root, `-` = root) with n
 //!                                              live entries in slot order (`.`/`..` included, volume label not)
 //! G ent <dirpath-hex|-> <name-hex|-> <short11-hex> <attrs> <size> <first_cluster> <crtTenth> <crtTime> <crtDate>
@@ -94,6 +96,8 @@ pub struct Geo {
     /// FAT32 only: bits of BPB_ExtFlags that carry no meaning and must be ignored: the active-copy nibble while
     /// mirroring is ON, and the reserved bits 4-6 / 8-15
     pub flag_noise: u16,
+    /// extended boot signature (0x29 normally; with anything else the id / label / type fields are not valid)
+    pub ext_sig: u8,
     pub root_cluster: u32,
     pub media: u8,
     pub volume_id: u32,
@@ -166,6 +170,7 @@ impl Geo {
             mirror: true,
             active: 0,
             flag_noise: 0,
+            ext_sig: 0x29,
             root_cluster: if bits == 32 { 2 } else { 0 },
             media: 0xF8,
             volume_id: 0x1BAD_B002,
@@ -220,7 +225,7 @@ impl Geo {
         }
         b[at] = if self.bits == 12 { 0 } else { 0x80 };
         b[at + 1] = self.status;
-        b[at + 2] = 0x29;
+        b[at + 2] = self.ext_sig;
         b[at + 3..at + 7].copy_from_slice(&self.volume_id.to_le_bytes());
         b[at + 7..at + 18].copy_from_slice(&self.bpb_label);
         let ty: &[u8; 8] = match self.bits {
@@ -380,6 +385,12 @@ pub struct Node {
     pub junk: Vec<Junk>,
     /// name by which the library can be asked for this entry (None: not addressable through the lossy OEM converter)
     pub open_name: Option<String>,
+    /// chain to be threaded through the topmost clusters of the volume (volume kind `Max`)
+    pub top: bool,
+    /// the file that takes every cluster nobody else wants (its data is all zero and never written)
+    pub filler: bool,
+    /// zero bytes of content that are not materialised (filler only)
+    pub zero_len: u64,
     // filled by the layout
     pub first_cluster: u32,
     pub chain: Vec<u32>,
@@ -440,15 +451,41 @@ pub struct Built {
     /// raw FS-info values as stored (FAT32)
     pub fs_free: Option<u32>,
     pub fs_next: Option<u32>,
+    pub kind: VolKind,
     pub freedoms: BTreeMap<String, u64>,
 }
 
 struct Alloc {
     used: BTreeSet<u32>,
     clusters: u32,
+    /// clusters kept for the `top` chains (never handed out by `take`)
+    top_pool: Vec<u32>,
 }
 
 impl Alloc {
+    /// A chain of `n` clusters that alternates between ordinary clusters and the top pool (links INTO the topmost
+    /// cluster numbers, out of order).
+    fn take_top(&mut self, rng: &mut SplitMix64, n: usize, fr: &mut BTreeMap<String, u64>) -> Vec<u32> {
+        let low = self.take(rng, (n + 1) / 2, fr);
+        let mut v = Vec::new();
+        let mut li = low.into_iter();
+        for i in 0..n {
+            if i % 2 == 1 && !self.top_pool.is_empty() {
+                let k = rng.below(self.top_pool.len() as u64) as usize;
+                let c = self.top_pool.remove(k);
+                self.used.insert(c);
+                v.push(c);
+                *fr.entry("chain.link_into_top_cluster".into()).or_default() += 1;
+            } else if let Some(c) = li.next() {
+                v.push(c);
+            } else {
+                let extra = self.take(rng, 1, fr);
+                v.push(extra[0]);
+            }
+        }
+        v
+    }
+
     /// `n` distinct free clusters: scattered and out of order most of the time.
     fn take(&mut self, rng: &mut SplitMix64, n: usize, fr: &mut BTreeMap<String, u64>) -> Vec<u32> {
         let mut v = Vec::new();
@@ -460,7 +497,9 @@ impl Alloc {
             // contiguous ascending run if one is found quickly
             for _ in 0..50 {
                 let start = 2 + rng.below(self.clusters as u64) as u32;
-                if (start..start + n as u32).all(|c| c < self.clusters + 2 && !self.used.contains(&c)) {
+                if (start..start + n as u32)
+                    .all(|c| c < self.clusters + 2 && !self.used.contains(&c) && !self.top_pool.contains(&c))
+                {
                     v = (start..start + n as u32).collect();
                     break;
                 }
@@ -471,7 +510,7 @@ impl Alloc {
             while v.len() < n && guard < 1_000_000 {
                 guard += 1;
                 let c = 2 + rng.below(self.clusters as u64) as u32;
-                if !self.used.contains(&c) && !v.contains(&c) {
+                if !self.used.contains(&c) && !v.contains(&c) && !self.top_pool.contains(&c) {
                     v.push(c);
                 }
             }
@@ -531,7 +570,7 @@ fn dir_bytes(
     let fat32 = geo.bits == 32;
     let mut out: Vec<u8> = Vec::new();
     let mut ents: Vec<String> = Vec::new();
-    let mut g_ent = |name: Option<&str>, short: &[u8; 11], attrs: u8, nt: u8, t: &Stamps, fc: u32, size: u32, content: &[u8]| {
+    let mut g_ent = |name: Option<&str>, short: &[u8; 11], attrs: u8, nt: u8, t: &Stamps, fc: u32, size: u32, hash: u64| {
         ents.push(format!(
             "G ent {} {} {} {} {} {} {} {} {} {} {} {} {:016x} {}",
             dir_path_hex(path),
@@ -546,7 +585,7 @@ fn dir_bytes(
             t.acc_date,
             t.wrt_time,
             t.wrt_date,
-            fnv64(content),
+            hash,
             nt
         ));
     };
@@ -554,10 +593,10 @@ fn dir_bytes(
         let mut dot = [b' '; 11];
         dot[0] = b'.';
         out.extend_from_slice(&sfn_slot(&dot, 0x10, 0, &dir.t, dir.first_cluster, 0, fat32));
-        g_ent(None, &dot, 0x10, 0, &dir.t, dir.first_cluster, 0, &[]);
+        g_ent(None, &dot, 0x10, 0, &dir.t, dir.first_cluster, 0, fnv64(&[]));
         dot[1] = b'.';
         out.extend_from_slice(&sfn_slot(&dot, 0x10, 0, &dir.t, parent_cluster, 0, fat32));
-        g_ent(None, &dot, 0x10, 0, &dir.t, parent_cluster, 0, &[]);
+        g_ent(None, &dot, 0x10, 0, &dir.t, parent_cluster, 0, fnv64(&[]));
     }
     for (i, k) in dir.kids.iter().enumerate() {
         if let Some((pos, l)) = label {
@@ -608,9 +647,16 @@ fn dir_bytes(
                 out.extend_from_slice(&s);
             }
         }
-        let size = if k.is_dir { 0 } else { k.content.len() as u32 };
+        let size = if k.is_dir {
+            0
+        } else if k.filler {
+            k.zero_len as u32
+        } else {
+            k.content.len() as u32
+        };
+        let hash = if k.filler { fnv_zeros(k.zero_len) } else { fnv64(&k.content) };
         out.extend_from_slice(&sfn_slot(&k.short, k.attrs, k.nt, &k.t, k.first_cluster, size, fat32));
-        g_ent(k.long.as_deref(), &k.short, k.attrs, k.nt, &k.t, k.first_cluster, size, &k.content);
+        g_ent(k.long.as_deref(), &k.short, k.attrs, k.nt, &k.t, k.first_cluster, size, hash);
     }
     if let Some((pos, l)) = label {
         if pos >= dir.kids.len() {
@@ -620,6 +666,15 @@ fn dir_bytes(
     gt.push(format!("G dir {} {}", dir_path_hex(path), ents.len()));
     gt.extend(ents);
     out
+}
+
+/// FNV-1a-64 of `n` zero bytes.
+pub fn fnv_zeros(n: u64) -> u64 {
+    let mut h = crate::tools::FNV_OFFSET;
+    for _ in 0..n {
+        h = h.wrapping_mul(crate::tools::FNV_PRIME);
+    }
+    h
 }
 
 fn node_name(k: &Node) -> String {
@@ -644,7 +699,10 @@ fn allocate(
         } else {
             (k.content.len() + cs - 1) / cs
         };
-        k.chain = al.take(rng, need, fr);
+        if k.filler {
+            continue;
+        }
+        k.chain = if k.top && need > 1 { al.take_top(rng, need, fr) } else { al.take(rng, need, fr) };
         k.first_cluster = k.chain.first().copied().unwrap_or(0);
         put_chain(geo, rng, fat, &k.chain, fr);
         if k.is_dir {
@@ -682,7 +740,7 @@ fn emit_tree(
                 }
             }
             emit_tree(geo, rng, st, k, k.first_cluster, &sub, gt);
-        } else {
+        } else if !k.filler {
             for (i, c) in k.chain.iter().enumerate() {
                 let lo = i * cs;
                 st.put(geo.cl_off(*c), &k.content[lo..(lo + cs).min(k.content.len())]);
@@ -964,6 +1022,9 @@ impl TreeGen<'_> {
                 kids: sub,
                 junk,
                 open_name,
+                top: false,
+                filler: false,
+                zero_len: 0,
                 first_cluster: 0,
                 chain: Vec::new(),
             });
@@ -988,11 +1049,53 @@ fn count_clusters(kids: &[Node], cs: usize) -> usize {
         .sum()
 }
 
+#[derive(Clone, Copy, Debug, PartialEq, Eq)]
+pub enum VolKind {
+    Normal,
+    /// FAT12 with 4079..=4084 / FAT16 with 65519..=65524 clusters of 512 bytes, nearly full, with file chains and a
+    /// directory chain threaded through the topmost clusters (numbers >= 0xFF0 / 0xFFF0 are ordinary links there)
+    Max,
+    /// FAT32 filled up: 0, 1 or 2 free clusters, the FS-info sector stores exactly that count
+    Full,
+}
+
 /// A random valid volume of FAT width `bits`.
 pub fn random_volume(rng: &mut SplitMix64, bits: u8) -> Built {
+    random_volume_kind(rng, bits, VolKind::Normal)
+}
+
+fn plain_file(name: &str, content: Vec<u8>, t: Stamps) -> Node {
+    let mut short = [b' '; 11];
+    let (b, e) = name.split_once('.').unwrap_or((name, ""));
+    short[..b.len()].copy_from_slice(b.as_bytes());
+    short[8..8 + e.len()].copy_from_slice(e.as_bytes());
+    Node {
+        long: None,
+        short,
+        nt: 0,
+        attrs: 0x20,
+        t,
+        is_dir: false,
+        content,
+        kids: Vec::new(),
+        junk: Vec::new(),
+        open_name: Some(name.to_string()),
+        top: false,
+        filler: false,
+        zero_len: 0,
+        first_cluster: 0,
+        chain: Vec::new(),
+    }
+}
+
+pub fn random_volume_kind(rng: &mut SplitMix64, bits: u8, kind: VolKind) -> Built {
     let mut fr: BTreeMap<String, u64> = BTreeMap::new();
-    let bps = *rng.pick(&[512u32, 512, 1024, 2048, 4096]);
-    let spc = *rng.pick(&[1u32, 1, 2, 4, 8, 16, 32, 64]);
+    let special = kind != VolKind::Normal;
+    let bps = if special { 512 } else { *rng.pick(&[512u32, 512, 1024, 2048, 4096]) };
+    let spc = if special { 1 } else { *rng.pick(&[1u32, 1, 2, 4, 8, 16, 32, 64]) };
+    if special {
+        *fr.entry(format!("kind.{:?}{}", kind, bits)).or_default() += 1;
+    }
     let cs = (bps * spc) as usize;
     let reserved = if bits == 32 { *rng.pick(&[9u32, 32, 32, 12]) } else { *rng.pick(&[1u32, 1, 8, 32]) };
     let fats = rng.range(1, 3) as u32;
@@ -1013,6 +1116,31 @@ pub fn random_volume(rng: &mut SplitMix64, bits: u8) -> Built {
         };
         tg.dir(0, 7)
     };
+    let mut kids = kids;
+    if kind == VolKind::Max {
+        // chains that run through the topmost clusters: two files and one directory
+        let mut f1 = plain_file("TOPFILE1.BIN", pattern(rng, 4 * cs + 9), stamps(rng));
+        f1.top = true;
+        let mut f2 = plain_file("TOPFILE2.BIN", pattern(rng, 3 * cs), stamps(rng));
+        f2.top = true;
+        let mut d = plain_file("TOPDIR", Vec::new(), stamps(rng));
+        d.is_dir = true;
+        d.attrs = 0x10;
+        d.top = true;
+        for i in 0..rng.range(16, 24) {
+            d.kids.push(plain_file(&format!("IN{:03}.DAT", i), pattern(rng, (i % 3) as usize * 7), stamps(rng)));
+        }
+        kids.push(f1);
+        kids.push(d);
+        kids.push(f2);
+    }
+    if special {
+        let mut f = plain_file("FILLER.BIN", Vec::new(), stamps(rng));
+        f.filler = true;
+        f.open_name = None; // megabytes of zeros: listed, not read back
+        let at = rng.below(kids.len() as u64 + 1) as usize;
+        kids.insert(at, f);
+    }
     let label: Option<[u8; 11]> = if rng.chance(2, 3) {
         Some(*rng.pick(&[*b"FOREIGN VOL", *b"LABEL      ", *b"MY DISK 01 "]))
     } else {
@@ -1020,7 +1148,13 @@ pub fn random_volume(rng: &mut SplitMix64, bits: u8) -> Built {
     };
     let root_slots = count_slots(&kids) + u32::from(label.is_some());
     let need = count_clusters(&kids, cs) + (root_slots as usize * 32 + cs - 1) / cs + 2;
-    let clusters = match bits {
+    let clusters = match (kind, bits) {
+        (VolKind::Max, 12) => *rng.pick(&[4084u32, 4084, 4084, 4083, 4081, 4079]),
+        (VolKind::Max, _) => *rng.pick(&[65_524u32, 65_524, 65_524, 65_523, 65_520, 65_519]),
+        (VolKind::Full, _) => rng.range(65_525, 66_200) as u32,
+        _ => 0,
+    };
+    let clusters = if clusters != 0 { clusters } else { match bits {
         12 => {
             let lo = (need as u32 + 12).max(20);
             match rng.below(6) {
@@ -1038,7 +1172,7 @@ pub fn random_volume(rng: &mut SplitMix64, bits: u8) -> Built {
             0 => 65_525,
             _ => rng.range(65_525, 70_000) as u32,
         },
-    };
+    } };
     match clusters {
         4084 | 4085 | 65_524 | 65_525 => *fr.entry(format!("clusters.boundary_{}", clusters)).or_default() += 1,
         _ => {}
@@ -1084,13 +1218,18 @@ pub fn random_volume(rng: &mut SplitMix64, bits: u8) -> Built {
         kids,
         junk: Vec::new(),
         open_name: None,
+        top: false,
+        filler: false,
+        zero_len: 0,
         first_cluster: 0,
         chain: Vec::new(),
     };
     let mut fat: BTreeMap<u32, u32> = BTreeMap::new();
+    let last = clusters + 1;
     let mut al = Alloc {
         used: BTreeSet::new(),
         clusters,
+        top_pool: if kind == VolKind::Max { (last - 7..=last).collect() } else { Vec::new() },
     };
     // FAT entries 0 and 1
     let (e0, mut e1) = match bits {
@@ -1126,7 +1265,34 @@ pub fn random_volume(rng: &mut SplitMix64, bits: u8) -> Built {
         put_chain(&geo, rng, &mut fat, &root.chain.clone(), &mut fr);
     }
     allocate(&geo, rng, &mut root, &mut al, &mut fat, &mut fr);
-    if bits == 32 {
+    if special {
+        // how many clusters stay free: on `Max` volumes what is left of the top pool, on `Full` volumes 0, 1 or 2
+        let keep_free: Vec<u32> = match kind {
+            VolKind::Max => al.top_pool.clone(),
+            _ => {
+                let n = rng.below(3) as usize;
+                let mut v = Vec::new();
+                while v.len() < n {
+                    let c = 2 + rng.below(clusters as u64) as u32;
+                    if !al.used.contains(&c) && !v.contains(&c) {
+                        v.push(c);
+                    }
+                }
+                v
+            }
+        };
+        let chain: Vec<u32> = (2..=last).filter(|c| !al.used.contains(c) && !keep_free.contains(c)).collect();
+        for c in &chain {
+            al.used.insert(*c);
+        }
+        put_chain(&geo, rng, &mut fat, &chain, &mut fr);
+        let f = root.kids.iter_mut().find(|k| k.filler).unwrap();
+        f.zero_len = chain.len() as u64 * cs as u64 - rng.below(cs as u64);
+        f.first_cluster = chain[0];
+        f.chain = chain;
+        *fr.entry(format!("full.free_left_{}", keep_free.len())).or_default() += 1;
+    }
+    if bits == 32 && !special {
         // reserved top nibbles on some free entries too
         for _ in 0..rng.range(0, 40) {
             let c = 2 + rng.below(clusters as u64) as u32;
@@ -1141,7 +1307,7 @@ pub fn random_volume(rng: &mut SplitMix64, bits: u8) -> Built {
     let mut st = Store::default();
     let (fs_free, fs_next) = if bits == 32 {
         // the stored values are what `G geo … fsinfo_free= fsinfo_next=` reports, valid or not
-        let f = match rng.below(8) {
+        let f = match if kind == VolKind::Full { 7 } else { rng.below(8) } {
             0 | 1 => {
                 *fr.entry("fsinfo.free_unknown".into()).or_default() += 1;
                 None
@@ -1176,9 +1342,14 @@ pub fn random_volume(rng: &mut SplitMix64, bits: u8) -> Built {
     } else {
         (None, None)
     };
-    if rng.chance(1, 6) {
-        geo.status = rng.range(1, 3) as u8;
+    if rng.chance(1, 4) {
+        geo.status = *rng.pick(&[1u8, 2, 3, 1, 2, 3, 0x84, 0x85]);
         *fr.entry(format!("bpb.status_{}", geo.status)).or_default() += 1;
+    }
+    if rng.chance(1, 4) {
+        // older / absent extended boot record: volume id, label and type string are not valid then
+        geo.ext_sig = *rng.pick(&[0x28u8, 0x00]);
+        *fr.entry(format!("bpb.ext_sig_{:02x}", geo.ext_sig)).or_default() += 1;
     }
     geo.put_reserved(&mut st, fs_free, fs_next);
     // allocation tables
@@ -1222,7 +1393,7 @@ pub fn random_volume(rng: &mut SplitMix64, bits: u8) -> Built {
     // children of the root carry 0 in `..`
     emit_tree(&geo, rng, &mut st, &root, 0, "", &mut gt);
     let geo_line = format!(
-        "G geo bits={} bps={} spc={} reserved={} fats={} spf={} root_entries={} total_sectors={} clusters={} mirror={} active={} root_cluster={} free={} fsinfo_free={} fsinfo_next={} label={} status={} fat1={}",
+        "G geo bits={} bps={} spc={} reserved={} fats={} spf={} root_entries={} total_sectors={} clusters={} mirror={} active={} root_cluster={} free={} fsinfo_free={} fsinfo_next={} label={} status={} fat1={} extsig={} volid={} bpblabel={}",
         geo.bits,
         geo.bps,
         geo.spc,
@@ -1240,7 +1411,10 @@ pub fn random_volume(rng: &mut SplitMix64, bits: u8) -> Built {
         fs_next.map_or("none".to_string(), |v| v.to_string()),
         label.map_or("none".to_string(), |l| hex(&l)),
         geo.status,
-        e1
+        e1,
+        geo.ext_sig,
+        geo.volume_id,
+        hex(&geo.bpb_label)
     );
     gt.insert(0, geo_line);
     Built {
@@ -1251,6 +1425,7 @@ pub fn random_volume(rng: &mut SplitMix64, bits: u8) -> Built {
         free_clusters,
         fs_free,
         fs_next,
+        kind,
         freedoms: fr,
     }
 }
